@@ -3,6 +3,7 @@ package main
 // Symbolic machine state: local cells, heap arrays, pointers.
 
 import (
+	"go/token"
 	"fmt"
 	"go/types"
 	"sort"
@@ -34,6 +35,7 @@ const (
 	pGlobal
 	pSeqElem
 	pCond // cond ? a : b (a pointer merged at a control-flow join)
+	pNil  // the nil pointer (one side of a merged pointer)
 )
 
 type pathElem struct {
@@ -105,6 +107,29 @@ func (u *Unit) heapGet(st *State, key string, sort Sort) *Term {
 func (u *Unit) heapSet(st *State, key string, v *Term) {
 	u.heapSorts[key] = v.sort
 	st.heap[key] = v
+	if key != allocHeapKey && !u.quiet {
+		// every reference stored in this heap value denotes an object allocated by now
+		if u.heapBorn == nil {
+			u.heapBorn = map[int]*Term{}
+		}
+		if _, ok := u.heapBorn[v.id]; !ok {
+			u.heapBorn[v.id] = u.allocSet(st)
+		}
+	}
+}
+
+// bornAlloc: the allocation set that was current when the heap value h was
+// installed (references read from h belong to it); nil if unknown.
+func (u *Unit) bornAlloc(h *Term) *Term {
+	if al, ok := u.heapBorn[h.id]; ok {
+		return al
+	}
+	if len(h.args) == 0 && h.vars == nil {
+		if i := strings.LastIndexByte(h.op, '@'); i > 0 && strings.HasPrefix(h.op, "H_") {
+			return u.m.tb.Const("H_"+allocHeapKey+h.op[i:], SArr(SInt, SBool))
+		}
+	}
+	return nil
 }
 
 func (u *Unit) elemsKey(elem types.Type) (string, Sort) {
@@ -169,9 +194,19 @@ func (u *Unit) loadField(st *State, ref *Term, dt *structDT, i int) *Term {
 	u.assumeEntryAllocated(arr, v, f.typ)
 	if !u.quiet && !v.bound && !ref.bound {
 		// typing invariant of the field's Go type (ranges, slice well-formedness) and
-		// memory safety: a reference stored in the heap denotes an object allocated
-		// in the current state
-		u.assumeTyping(st.guard, v, f.typ, st)
+		// memory safety: a reference stored in the heap denotes an object that was
+		// allocated when this heap value was installed (or, failing that, now)
+		al := u.bornAlloc(arr)
+		if al == nil {
+			al = u.allocSet(st)
+		}
+		u.assumeTypingIn(st.guard, v, f.typ, al)
+		// convention for ghost reads through a nil pointer (real reads are guarded by a
+		// nil obligation): the fields of the nil object read as zero values, so that a
+		// frame clause such as `modifies p.f[:]` names nothing when p is nil
+		if _, isLit := ref.intLit(); !isLit {
+			u.assume(st.guard, u.m.tb.Implies(u.m.tb.Eq(ref, u.m.tb.Int(0)), u.m.tb.Eq(v, u.m.Zero(f.typ))))
+		}
 	}
 	return v
 }
@@ -263,7 +298,18 @@ func (u *Unit) loadBase(st *State, p *Ptr) Val {
 		return u.globalValue(p.glob)
 	case pSeqElem:
 		return u.m.SeqAt(p.slice, p.idx)
+	case pNil:
+		u.oblige("nil", "", st, u.m.tb.False(), token.NoPos, "nil dereference")
+		return u.m.Zero(p.typ)
 	case pCond:
+		if p.pa.kind == pNil {
+			u.oblige("nil", "", st, u.m.tb.Not(p.cond), token.NoPos, "nil dereference (pointer may be nil on this path)")
+			return u.load(st, p.pb)
+		}
+		if p.pb.kind == pNil {
+			u.oblige("nil", "", st, p.cond, token.NoPos, "nil dereference (pointer may be nil on this path)")
+			return u.load(st, p.pa)
+		}
 		a, ok1 := u.load(st, p.pa).(*Term)
 		b, ok2 := u.load(st, p.pb).(*Term)
 		if !ok1 || !ok2 {
@@ -287,7 +333,19 @@ func (u *Unit) storeBase(st *State, p *Ptr, v Val) {
 		u.setElemsArr(st, ref, et, u.m.tb.Store(arr, u.m.ElemIx(u.m.SliceOff(p.slice), p.idx), v.(*Term)))
 	case pGlobal:
 		panic(u.errf("store to global %s is outside the subset", p.glob.Name()))
+	case pNil:
+		u.oblige("nil", "", st, u.m.tb.False(), token.NoPos, "nil dereference")
 	case pCond:
+		if p.pa.kind == pNil {
+			u.oblige("nil", "", st, u.m.tb.Not(p.cond), token.NoPos, "nil dereference (pointer may be nil on this path)")
+			u.store(st, p.pb, v)
+			return
+		}
+		if p.pb.kind == pNil {
+			u.oblige("nil", "", st, p.cond, token.NoPos, "nil dereference (pointer may be nil on this path)")
+			u.store(st, p.pa, v)
+			return
+		}
 		oa := u.load(st, p.pa).(*Term)
 		ob := u.load(st, p.pb).(*Term)
 		u.store(st, p.pa, u.m.tb.Ite(p.cond, v.(*Term), oa))
@@ -430,6 +488,22 @@ func (u *Unit) mergeStates(ins []inEdge) *State {
 		v, _ := u.mergeVals(vals, gs)
 		out.heap[k] = v.(*Term)
 	}
+	if !u.quiet {
+		// references held by a merged heap value were allocated on the branch they
+		// come from, hence belong to the merged allocation set
+		if u.heapBorn == nil {
+			u.heapBorn = map[int]*Term{}
+		}
+		al := u.allocSet(out)
+		for k, v := range out.heap {
+			if k == allocHeapKey {
+				continue
+			}
+			if _, ok := u.heapBorn[v.id]; !ok {
+				u.heapBorn[v.id] = al
+			}
+		}
+	}
 	return out
 }
 
@@ -447,11 +521,26 @@ func (u *Unit) mergeVals(vals []Val, gs []*Term) (Val, bool) {
 	if allSame {
 		return vals[0], true
 	}
-	if p0, ok := vals[0].(*Ptr); ok {
-		// pointers to different locations: a conditional pointer
+	var p0 *Ptr
+	for _, v := range vals {
+		if p, ok := v.(*Ptr); ok {
+			p0 = p
+			break
+		}
+	}
+	if p0 != nil {
+		// pointers to different locations (or nil): a conditional pointer
 		accp := (*Ptr)(nil)
 		for i := len(vals) - 1; i >= 0; i-- {
 			p, ok := vals[i].(*Ptr)
+			if !ok {
+				// the nil pointer constant
+				if t, isTerm := vals[i].(*Term); isTerm {
+					if lit, isLit := t.intLit(); isLit && lit.Sign() == 0 {
+						p, ok = &Ptr{kind: pNil, base: p0.typ, typ: p0.typ}, true
+					}
+				}
+			}
 			if !ok || !types.Identical(p.typ, p0.typ) {
 				return nil, false
 			}
